@@ -1,5 +1,6 @@
 #![allow(dead_code, unused_variables, unused_assignments, unused_imports)]
 mod c13;
+mod c17;
 mod crypto;
 mod gen;
 mod interpose;
